@@ -1,5 +1,6 @@
 """C05 bounded, breadth-first collection - see DESIGN.md section 4 (C05)."""
 import ast
+import re
 
 from .common import Ctx, Finding, Result, need, term, P, TRUSTED_LOGGING
 from .c03 import table_rule
@@ -79,6 +80,25 @@ def run(ctx: Ctx, tier: str) -> Result:
         res.ok("C05.STR", {"bound": lim[0]})
     else:
         res.fail(Finding("C05.STR", pv.qname, tc[0], pv.loc(tc[0]), "the string bound is not the collector's max_string_length: %s" % lim))
+
+    # what is stored is the cut text, and the mark is the cut's own
+    var_cls = p.cls("deep.api.tracepoint.eventsnapshot.Variable")
+    vinit = var_cls.lookup("__init__")
+    for c in [c for c in t.calls_in(pv) if var_cls in t.resolve_call(c, pv).ctor]:
+        b_ = t.bind_args(vinit, c)
+        val = ctx.expand.expand(b_.get("value"), pv) if b_.get("value") is not None else []
+        trn = ctx.expand.expand(b_.get("truncated"), pv) if b_.get("truncated") is not None else []
+        def cut_(x):
+            return ("truncate_string(" in x and x.endswith("[0]")) or re.search(r"\[:[^\]]*max_string_length\]$", x) is not None
+
+        def mark_(x):
+            return ("truncate_string(" in x and x.endswith("[1]")) or re.fullmatch(r"len\(.*\) > .*max_string_length", x) is not None
+        okv = bool(val) and all(cut_(x) for x in val) and bool(trn) and all(mark_(x) for x in trn)
+        if okv:
+            res.ok("C05.STR", {"stored value": val[0][:80]})
+        else:
+            res.fail(Finding("C05.STR", pv.qname, c, pv.loc(c), "the recorded value / truncation mark are not (always) the result of truncate_string: value %s, mark %s - some "
+                             "text is stored uncut and unmarked" % ([x[:60] for x in val], [x[:40] for x in trn])))
 
     # ---------------- SEQ
     pl = p.func(VP + ".process_list_breadth_first")
